@@ -130,6 +130,30 @@ type lisRec struct {
 	last    []string
 	sig     chan struct{}
 	demBase int
+	panicV  string // go-zero panicked while the observer asked for the view
+}
+
+func (l *lisRec) recordPanic(v any) {
+	l.mu.Lock()
+	l.calls++
+	l.panicV = fmt.Sprint(v)
+	l.mu.Unlock()
+	select {
+	case l.sig <- struct{}{}:
+	default:
+	}
+}
+
+func (l *lisRec) panicked() string {
+	l.mu.Lock()
+	defer l.mu.Unlock()
+	return l.panicV
+}
+
+// safeValues calls Values() and turns a panic of go-zero into a value.
+func safeValues(sub *discov.Subscriber) (vals []string, p any) {
+	defer func() { p = recover() }()
+	return append([]string(nil), sub.Values()...), nil
 }
 
 func newLis() *lisRec { return &lisRec{sig: make(chan struct{}, 1)} }
@@ -163,16 +187,17 @@ func has(vs []string, x string) bool {
 }
 
 func (l *lisRec) waitFor(marker string) bool {
-	t := time.NewTimer(watchdog)
+	t := time.NewTimer(patience())
 	defer t.Stop()
 	for {
 		_, last := l.snapshot()
-		if has(last, marker) {
+		if has(last, marker) || l.panicked() != "" {
 			return true
 		}
 		select {
 		case <-l.sig:
 		case <-t.C:
+			fired()
 			return false
 		}
 	}
@@ -217,7 +242,8 @@ type subRec struct {
 	name   string
 	mode   string // plain | exclusive | exact | exact-exclusive | resolver
 	excl   bool
-	wk     wkey
+	wk     wkey // the range the statement speaks about
+	fk     wkey // the range go-zero actually asked the scripted etcd for
 	sub    *discov.Subscriber
 	res    *resRec
 	rs     gresolver.Resolver
@@ -227,12 +253,12 @@ type subRec struct {
 	large  bool // resolver over more than 32 values: subset semantics
 }
 
-func (s *subRec) values() []string {
+func (s *subRec) values() ([]string, any) {
 	if s.sub != nil {
-		return append([]string(nil), s.sub.Values()...)
+		return safeValues(s.sub)
 	}
 	_, last := s.res.snapshot()
-	return last
+	return last, nil
 }
 
 // ---------------------------------------------------------------- one history
@@ -295,35 +321,51 @@ func (h *hist) addSub(name string, excl, exact bool, nLis int) *subRec {
 	for _, o := range h.subs {
 		if !o.closed && o.wk == wk {
 			joining = true
+			s.fk = o.fk
 		}
 	}
-	pos := h.f.transLen(wk)
+	g0, w0, _ := h.f.totals()
+	pos := 0
 	var joinSnap map[string]string
 	if joining {
-		joinSnap = h.f.current(wk) // quiescent: equals what the registry holds
+		pos = h.f.transLen(s.fk)
+		joinSnap = h.f.current(s.fk) // quiescent: equals what the registry holds
 	}
-	g0, w0 := h.f.calls(wk)
-	sub, err := discov.NewSubscriber([]string{h.ep}, h.prefix, opts...)
+	var sub *discov.Subscriber
+	var err error
+	if p := guard(func() { sub, err = discov.NewSubscriber([]string{h.ep}, h.prefix, opts...) }); p != nil {
+		h.subs = append(h.subs, s)
+		s.closed = true
+		h.panicViol(s, "NewSubscriber", p)
+		return s
+	}
 	if err != nil {
 		panic("c13 harness: NewSubscriber: " + err.Error())
 	}
 	s.sub = sub
-	// the watch is started from a goroutine: wait for its Watch call so that no harness
-	// action overlaps with go-zero's own start-up
-	if !joining && !h.f.waitCalls(wk, g0+1, w0+1) {
-		h.inconclusive("watchdog: no Get+Watch after NewSubscriber")
-	}
 	s.m = newMirror(excl, wk, pos)
 	if joining {
 		s.m.consume([]titem{{kind: tJoin, snap: joinSnap}})
 		s.m.pos = pos
 	} else {
-		s.m.consume(h.f.transcript(wk, pos))
+		// the watch is started from a goroutine: wait for its Watch call so that no harness
+		// action overlaps with go-zero's own start-up; the range it asked for is its feed
+		if !h.f.waitTotals(g0+1, w0+1) {
+			h.inconclusive("watchdog: no Get+Watch after NewSubscriber")
+		}
+		_, _, s.fk = h.f.totals()
+		s.m.consume(h.f.transcript(s.fk, 0))
 	}
 	for i := 0; i < nLis; i++ {
 		l := newLis()
 		l.demBase = s.m.demanded
-		sub.AddListener(func() { l.record(sub.Values()) })
+		sub.AddListener(func() {
+			if v, p := safeValues(sub); p != nil {
+				l.recordPanic(p)
+			} else {
+				l.record(v)
+			}
+		})
 		s.lis = append(s.lis, l)
 	}
 	h.subs = append(h.subs, s)
@@ -340,25 +382,30 @@ func (h *hist) addResolver(name string) *subRec {
 	if err != nil {
 		panic(err)
 	}
+	s := &subRec{name: name, mode: "resolver", wk: h.pwk, res: &resRec{lisRec: *newLis()}}
 	joining := false
 	for _, o := range h.subs {
 		if !o.closed && o.wk == h.pwk {
 			joining = true
+			s.fk = o.fk
 		}
 	}
-	pos := h.f.transLen(h.pwk)
+	g0, w0, _ := h.f.totals()
+	pos := 0
 	var joinSnap map[string]string
 	if joining {
-		joinSnap = h.f.current(h.pwk)
+		pos = h.f.transLen(s.fk)
+		joinSnap = h.f.current(s.fk)
 	}
-	s := &subRec{name: name, mode: "resolver", wk: h.pwk, res: &resRec{lisRec: *newLis()}}
-	g0, w0 := h.f.calls(h.pwk)
-	rs, err := b.Build(gresolver.Target{URL: *u}, s.res, gresolver.BuildOptions{})
+	var rs gresolver.Resolver
+	if p := guard(func() { rs, err = b.Build(gresolver.Target{URL: *u}, s.res, gresolver.BuildOptions{}) }); p != nil {
+		h.subs = append(h.subs, s)
+		s.closed = true
+		h.panicViol(s, "resolver Build", p)
+		return s
+	}
 	if err != nil {
 		panic("c13 harness: discov Build: " + err.Error())
-	}
-	if !joining && !h.f.waitCalls(h.pwk, g0+1, w0+1) {
-		h.inconclusive("watchdog: no Get+Watch after resolver Build")
 	}
 	s.rs = rs
 	s.m = newMirror(false, h.pwk, pos)
@@ -366,7 +413,11 @@ func (h *hist) addResolver(name string) *subRec {
 		s.m.consume([]titem{{kind: tJoin, snap: joinSnap}})
 		s.m.pos = pos
 	} else {
-		s.m.consume(h.f.transcript(h.pwk, pos))
+		if !h.f.waitTotals(g0+1, w0+1) {
+			h.inconclusive("watchdog: no Get+Watch after resolver Build")
+		}
+		_, _, s.fk = h.f.totals()
+		s.m.consume(h.f.transcript(s.fk, 0))
 	}
 	h.subs = append(h.subs, s)
 	h.c.Obs("resolvers_built", 1)
@@ -378,11 +429,31 @@ func (h *hist) closeSub(s *subRec) {
 		return
 	}
 	s.closed = true
-	if s.rs != nil {
-		s.rs.Close()
-	} else {
-		s.sub.Close()
+	guard(func() {
+		if s.rs != nil {
+			s.rs.Close()
+		} else {
+			s.sub.Close()
+		}
+	})
+}
+
+// guard runs a call into go-zero and returns what it panicked with, if it did.
+func guard(fn func()) (p any) {
+	defer func() { p = recover() }()
+	fn()
+	return nil
+}
+
+func (h *hist) panicViol(s *subRec, where string, p any) {
+	h.dead = true
+	key := "C13/panic/" + kit.KeyPart(where)
+	if h.reported[key] {
+		return
 	}
+	h.reported[key] = true
+	h.c.Viol(key, fmt.Sprintf("go-zero panicked in %s of %s subscriber %s: %v", where, s.mode, s.name, p),
+		map[string]any{"endpoint": h.ep, "watched_key": h.prefix, "steps": h.log, "panic": fmt.Sprint(p)})
 }
 
 func (h *hist) finish() {
@@ -444,7 +515,7 @@ func (h *hist) sync() {
 			h.inconclusive("reloads kept happening while synchronising")
 			return
 		}
-		g0, w0 := h.f.calls(h.pwk)
+		g0, w0, _ := h.f.totals()
 		h.markerN++
 		mk := fmt.Sprintf("%s/~m%d", h.prefix, h.markerN)
 		mv = fmt.Sprintf("marker-%d", h.markerN)
@@ -458,7 +529,7 @@ func (h *hist) sync() {
 				continue
 			}
 			if s.wk == h.xwk {
-				if !h.f.progress(h.xwk) {
+				if !h.f.progress(s.fk) {
 					h.inconclusive("watchdog: progress notification on the exact-match stream was not received")
 					return
 				}
@@ -477,7 +548,7 @@ func (h *hist) sync() {
 				}
 			}
 		}
-		g1, w1 := h.f.calls(h.pwk)
+		g1, w1, _ := h.f.totals()
 		if g0 == g1 && w0 == w1 {
 			break
 		}
@@ -538,7 +609,7 @@ func sameMM(a, b []mismatch) bool {
 
 func (h *hist) check(s *subRec) {
 	store := h.f.current(s.wk)
-	s.m.consume(h.f.transcript(s.wk, s.m.pos))
+	s.m.consume(h.f.transcript(s.fk, s.m.pos))
 	if err := s.m.selfCheck(store); err != nil {
 		panic("c13 harness: " + err.Error() + " after " + strings.Join(h.log, "; "))
 	}
@@ -546,7 +617,17 @@ func (h *hist) check(s *subRec) {
 		h.checkLarge(s, store)
 		return
 	}
-	got := s.values()
+	got, pv := s.values()
+	if pv != nil {
+		h.panicViol(s, "Values()", pv)
+		return
+	}
+	for _, l := range s.lis {
+		if pm := l.panicked(); pm != "" {
+			h.panicViol(s, "Values() called from a listener", pm)
+			return
+		}
+	}
 	mms := s.m.compare(store, got)
 	if len(mms) > 0 && (s.wk == h.xwk) {
 		// the exact-match stream is synchronised by a progress notification, which is
@@ -555,7 +636,7 @@ func (h *hist) check(s *subRec) {
 		for _, l := range s.lis {
 			l.stable()
 		}
-		got = s.values()
+		got, _ = s.values()
 		mms = s.m.compare(store, got)
 	}
 	by := "Values()"
@@ -736,28 +817,27 @@ func (h *hist) reload(kind int, n int, next func() op) {
 	feeds := []wkey{}
 	seen := map[wkey]bool{}
 	for _, s := range h.subs {
-		if !s.closed && !seen[s.wk] {
-			seen[s.wk] = true
-			feeds = append(feeds, s.wk)
+		if !s.closed && !seen[s.fk] {
+			seen[s.fk] = true
+			feeds = append(feeds, s.fk)
 		}
 	}
 	if kind >= rlCompactBreak {
 		h.f.compact()
 	}
 	for _, wk := range feeds {
-		g, w := h.f.calls(wk)
+		_, w := h.f.calls(wk)
 		switch kind {
 		case rlBreakClose, rlBreakCancel:
 			h.f.breakStream(wk, kind == rlBreakCancel)
-			w++
 		case rlCompactBreak:
 			h.f.breakStream(wk, false)
-			g, w = g+1, w+2
 		case rlCompactLive:
 			h.f.compactLive(wk)
-			g, w = g+1, w+1
 		}
-		if !h.f.waitCalls(wk, g, w) {
+		// whatever go-zero does to recover (re-watch; or re-watch, be told "compacted",
+		// load, watch again), it ends with a watch that is being served
+		if !h.f.waitLive(wk, w+1) {
 			h.inconclusive("watchdog: go-zero did not re-establish the watch after " + rlNames[kind])
 			return
 		}
@@ -1182,7 +1262,7 @@ func reconnectHistory(c *kit.Case) {
 			h.missedOps++
 		}
 		h.note("reconnect", "PARTITION{missed: %s} then the etcd connection is lost and re-established (state watcher -> cluster.reload)", strings.Join(ds, ", "))
-		g0, w0 := h.f.calls(h.pwk)
+		g0, w0, _ := h.f.totals()
 		srv.Stop()
 		if !waitState(conn, connectivity.TransientFailure, true) {
 			h.inconclusive("connection did not reach TRANSIENT_FAILURE after the listener was stopped")
@@ -1201,7 +1281,7 @@ func reconnectHistory(c *kit.Case) {
 			h.inconclusive("connection did not become ready again")
 			break
 		}
-		if !h.f.waitCalls(h.pwk, g0+1, w0+1) {
+		if !h.f.waitTotals(g0+1, w0+1) {
 			h.inconclusive("watchdog: no reload (Get + Watch) after the connection came back")
 			break
 		}
